@@ -33,12 +33,14 @@ def alphabet_for(np, small=False):
             for rs in combos: A.append(dict(op='CP', recs=list(rs)))
             for rs in combos[::3]: A.append(dict(op='IW', recs=list(rs)))
             for rs in [c for c in combos if all(x is not None for x in c)][:4]: A.append(dict(op='CD', recs=list(rs)))
+            for rs in [c for c in combos if any(x is not None for x in c)][1::4]: A.append(dict(op='CE', recs=list(rs)))     # out-of-range value: NC_ERANGE, the record still exists
             for r in (0, 1, 3): A.append(dict(op='FV', rec=r))
             A.append(dict(op='BI'))
         else:
             for k in range(np):
                 for r in (0, 1, 3):
                     A.append(dict(op='IP', k=k, rec=r)); A.append(dict(op='IQ', k=k, rec=r))
+                A.append(dict(op='IE', k=k, rec=3 - k % 2))
             A.append(dict(op='EI'))
         A += [dict(op='SY'), dict(op='SN'), dict(op='RD'), dict(op='CO')]
         if m.nvars == 2: A.append(dict(op='RA'))
@@ -64,6 +66,13 @@ def emit_op(c, o, m, np):
             else:
                 val = 1000 * (m.tag + 1) + 10 * rec + r
                 c.op(r, 'put', f=0, form='vard' if k == 'CD' else 'vara', v=0, s=[rec, r], c=[1, 1], coll=1, mem='int', vals=[val], api='flex' if k == 'CD' else None)
+    elif k == 'CE':
+        for r in range(np):
+            rec = o['recs'][r]
+            if rec is None: c.op(r, 'put', f=0, form='vara', v=0, s=[0, r], c=[0, 1], coll=1, mem='int')
+            else: c.op(r, 'put', f=0, form='vara', v=0, s=[rec, r], c=[1, 1], coll=1, mem='double', vals='1e30')
+    elif k == 'IE':
+        c.op(o['k'], 'put', f=0, form='vara', v=0, s=[o['rec'], o['k']], c=[1, 1], coll=0, mem='double', vals='1e30')
     elif k == 'IW':
         for r in range(np):
             rec = o['recs'][r]
@@ -95,10 +104,14 @@ FILL_INT = -2147483647
 def apply(m, o):
     m = m.clone(); k = o['op']; np = m.np
     def wr(rec, r): m.data[(rec, r)] = 1000 * (m.tag + 1) + 10 * rec + r
-    if k in ('CP', 'CD', 'IW'):
+    if k in ('CP', 'CD', 'IW', 'CE'):
         for r in range(np):
-            if o['recs'][r] is not None: wr(o['recs'][r], r); m.local[r] = max(m.local[r], o['recs'][r] + 1)
+            if o['recs'][r] is not None:
+                wr(o['recs'][r], r); m.local[r] = max(m.local[r], o['recs'][r] + 1)
+                if k == 'CE': m.data[(o['recs'][r], r)] = FILL_INT
         m.sync()
+    elif k == 'IE':
+        m.data[(o['rec'], o['k'])] = FILL_INT; m.local[o['k']] = max(m.local[o['k']], o['rec'] + 1)
     elif k == 'FV':
         for r in range(np): m.data[(o['rec'], r)] = FILL_INT
         m.local = [max(x, o['rec'] + 1) for x in m.local]; m.sync()
@@ -187,6 +200,7 @@ def make_step(np):
         # every API call of the op must succeed
         for k in r.ranks:
             for ln, x in r.ranks[k].items():
+                if x.get('op') == 'put' and x.rc == D.NC_ERANGE and 'vals=1e30' in r.case.ops[ln - 1]: continue      # the CE / IE letters (also when replayed as history)
                 if x.get('op') in ('put', 'wait', 'fill_var_rec', 'sync', 'sync_numrecs', 'redef', 'enddef', 'begin_indep', 'end_indep', 'close', 'open') and x.rc != 0:
                     v.append((('rc', x.get('op'), o['op']), 'rank %d line %d %s returned %d' % (k, ln, x.get('op'), x.rc))); break
         return ctx['m2'], v
